@@ -573,11 +573,23 @@ class AssignImplicit(AssignmentBase):
         else:
             assignees = self.assignees
 
+        def map_unknown(name):
+            # The unknowns occur in the expressions, so they have to follow
+            # whatever the mapper does to them there.
+            mapped = mapper(Variable(name))
+            assert isinstance(mapped, Variable)
+            return mapped.name
+
         return (super()
                 .map_expressions(mapper, include_lhs=include_lhs)
                 .copy(
                     assignees=assignees,
-                    expressions=mapper(self.expressions)))
+                    solve_variables=tuple(
+                        map_unknown(name) for name in self.solve_variables),
+                    expressions=mapper(self.expressions),
+                    other_params={
+                        name: mapper(value)
+                        for name, value in self.other_params.items()}))
 
     def __str__(self):
         lines = []
